@@ -10,7 +10,7 @@ import time
 
 import common
 import runnerio
-from common import Outcome
+from common import Outcome, LeanDriver
 
 ID = "C08"
 PROPS = ["Invoke/Props/C08.lean"]
@@ -273,7 +273,88 @@ def tty_case(case):
     return None, out
 
 
+BRACKET_HELPER = r'''
+import sys, os, pty, termios, fcntl, json, io
+sys.path.insert(0, %(repo)r)
+specs = %(specs)r
+master, slave = pty.openpty()
+pid = os.fork()
+if pid == 0:
+    os.close(master)
+    os.setsid()
+    fcntl.ioctl(slave, termios.TIOCSCTTY, 0)
+    from invoke.terminals import character_buffered, cbreak_already_set
+    f = os.fdopen(slave, 'r')
+    res = []
+    for sp in specs:
+        stream = f if sp['tty'] else io.StringIO('x')
+        if sp['tty']:
+            a = termios.tcgetattr(f)
+            a[3] = (a[3] | termios.ECHO) if sp['echo'] else (a[3] & ~termios.ECHO)
+            a[3] = (a[3] | termios.ICANON) if sp['icanon'] else (a[3] & ~termios.ICANON)
+            a[6][termios.VMIN] = sp['vmin']; a[6][termios.VTIME] = sp['vtime']
+            termios.tcsetattr(f, termios.TCSADRAIN, a)
+            before = termios.tcgetattr(f)
+        r = {'during': None, 'raised': False}
+        try:
+            with character_buffered(stream):
+                if sp['tty']:
+                    r['during'] = cbreak_already_set(f)
+                if sp['raise']:
+                    raise RuntimeError('body')
+        except RuntimeError:
+            r['raised'] = True
+        r['restored'] = (termios.tcgetattr(f) == before) if sp['tty'] else True
+        res.append(r)
+    sys.stdout.write('RESULT ' + json.dumps(res) + '\n'); sys.stdout.flush()
+    os._exit(0)
+else:
+    os.close(slave)
+    os.waitpid(pid, 0)
+'''
+
+
+def bracket_specs(rng, n):
+    specs = []
+    for echo in (True, False):
+        for icanon in (True, False):
+            for vmin, vtime in ((1, 0), (0, 0), (1, 3), (4, 7)):
+                for rz in (False, True):
+                    specs.append({"tty": True, "echo": echo, "icanon": icanon, "vmin": vmin, "vtime": vtime, "raise": rz})
+    specs += [{"tty": False, "echo": True, "icanon": True, "vmin": 1, "vtime": 0, "raise": rz} for rz in (False, True)]
+    rng.shuffle(specs)
+    return specs[:n]
+
+
+def bracket_run(specs):
+    src = BRACKET_HELPER % {"repo": common.REPO, "specs": specs}
+    p = subprocess.run([sys.executable, "-c", src], capture_output=True, text=True, timeout=60)
+    line = [l for l in p.stdout.splitlines() if l.startswith("RESULT ")]
+    return json.loads(line[0][7:]) if line else None
+
+
+def bracket_model_line(sp):
+    return "T|%d,%d,%d,%d,%d,%d,%d" % (int(sp["tty"]), int(sp["tty"]), int(sp["echo"]), int(sp["icanon"]), sp["vmin"], sp["vtime"], int(sp["raise"]))
+
+
+def bracket_oracle(sp, r):
+    if not r["restored"]:
+        return "[tty-not-restored] character_buffered over a terminal with echo=%s icanon=%s vmin=%d vtime=%d (body %s): attributes after the block differ from before" % (
+            sp["echo"], sp["icanon"], sp["vmin"], sp["vtime"], "raises" if sp["raise"] else "returns")
+    if r["raised"] != sp["raise"]:
+        return "[bracket-outcome] the body %s but the block %s" % ("raised" if sp["raise"] else "returned", "raised" if r["raised"] else "returned")
+    if sp["tty"] and not r["during"]:
+        return "[not-character-buffered] inside the block the terminal is not in cbreak mode"
+    return None
+
+
 def replay(case):
+    if "bracket" in case:
+        res = bracket_run([case["bracket"]])
+        if res is None:
+            return True, "skipped: no pty"
+        why = bracket_oracle(case["bracket"], res[0])
+        return why is None, why or "ok"
     if "acct" in case:
         try:
             why, _ = common.with_timeout(accounting, 120, case)
@@ -328,4 +409,30 @@ def run(ctx):
         if why:
             out.fail(c, why)
     out.extra["tty"] = tt
+    # (iv) the character_buffered bracket by itself: every attribute combination x returning/raising body, against the
+    # Lean bracket model (Model/Terminal.lean) and the oracle
+    specs = bracket_specs(rng, 66 if (ctx.thorough or ctx.escalated) else 40)
+    try:
+        res = bracket_run(specs)
+    except Exception as e:  # no pty support
+        res = None
+        out.extra["bracket_skipped"] = repr(e)
+    if res is not None:
+        model = LeanDriver("drv_runner").run([bracket_model_line(sp) for sp in specs]) if ctx.model_ok else [None] * len(specs)
+        for sp, r, m in zip(specs, res, model):
+            c = {"bracket": sp}
+            out.case(c, True)
+            out.hist["bracket:" + ("tty" if sp["tty"] else "non-tty")] += 1
+            if m is not None:
+                out.traces += 1
+                touches = sp["tty"] and not (not sp["echo"] and not sp["icanon"] and sp["vmin"] == 1 and sp["vtime"] == 0)
+                got = "%d,%d,%d,%d" % (int(touches), int(bool(r["during"])) if sp["tty"] else int(False), int(r["restored"]), int(r["raised"]))
+                mm = m.split(",")
+                if sp["tty"] and (mm[1:] != got.split(",")[1:]):
+                    out.disagree(c, got, m)
+                elif not sp["tty"] and (mm[0] != "0" or mm[2:] != got.split(",")[2:]):
+                    out.disagree(c, got, m)
+            why = bracket_oracle(sp, r)
+            if why:
+                out.fail(c, why)
     return out
